@@ -194,7 +194,7 @@ class FnTranslator:
                 if lf in BINARY and len(args) == 2:
                     return self.lift2(BINARY[lf], self.expr(args[0], env),
                                       self.expr(args[1], env))
-                if lf == "if_else" and len(args) == 3:
+                if lf in ("if_else", "where") and len(args) == 3:      # cs.if_else / np.where: element-wise selection
                     a, b = self.cmp(args[0], env)
                     t = self.expr(args[1], env)
                     e = self.expr(args[2], env)
